@@ -167,7 +167,11 @@ def rule_rollover(repo: Repo, rep: Report) -> None:
             for e, p in s.ctx.guards:
                 if p and isinstance(e, ast.Name) and act.owner(e.id) is ct:
                     open_ = e.id
-    rep.require(close and open_, "window_with_time: close / open decisions of the timer action")
+    if not (close and open_):
+        rep.ob("T1-rollover", act, "the timer action closes the oldest window / opens a new one under two decisions taken when it was armed", False,
+               "window_with_time's timer action no longer closes (queue.pop) and opens (add_ref) windows under the two decisions computed "
+               "by create_timer: the roll-over at a boundary is not the confirmed close-iff-span<=shift / open-iff-shift<=span step")
+        return
     body = [st for st in ct.node.body if not isinstance(st, (ast.FunctionDef, ast.AsyncFunctionDef))]
     for a, b, label in ((0, 1, "next_span < next_shift"), (1, 1, "next_span == next_shift"), (1, 0, "next_span > next_shift")):
         env = {span: a, shift: b}
